@@ -16,3 +16,6 @@ def run(out, sc, tier, seed):
     n = 15000 if tier == "quick" else 120000
     run_progs(out, sc, "C14", {"gen": "progs", "n": n, "seed": seed, "fields": FIELDS, "ops": ["join"], "depths": [1, 1, 2],
                                "build_p": 0.1}, "join")
+    # every scheme of the interpreter's urllib tables as the base's scheme (authority / rooted / rootless; auto-encoded and verbatim,
+    # the latter keeping dot segments in the base) x the reference shapes of RFC 3986 5.4
+    run_progs(out, sc, "C14", {"gen": "joinschemes", "fields": FIELDS}, "join-schemes", nslices=6)
